@@ -7,10 +7,14 @@ base = json.load(open('/root/.vp/BASELINE.json'))
 fd, path = tempfile.mkstemp(suffix='.xml', dir='/var/tmp'); os.close(fd)
 env = dict(os.environ); env.pop('ARSKOM_SPYNE_VERIF', None)
 extra = sys.argv[1:]
+repo = '/repo'
+if extra and extra[0] == '--repo':
+    repo = extra[1]
+    extra = extra[2:]
 cmd = ['/venv/bin/python', '-m', 'pytest', '-q', '-p', 'no:cacheprovider',
        '--timeout=900', '--continue-on-collection-errors',
        '--junitxml=' + path] + extra
-subprocess.run(cmd, cwd='/repo', env=env, stdout=subprocess.DEVNULL,
+subprocess.run(cmd, cwd=repo, env=env, stdout=subprocess.DEVNULL,
                stderr=subprocess.DEVNULL)
 passed = set()
 for tc in ET.parse(path).getroot().iter('testcase'):
